@@ -42,6 +42,9 @@ func runC17(c *Ctx) {
 		r.Und("C17.iter", "instance-floor", "", "fewer than the 2 list loops confirmed by hand (FlushAll, processExpiredEvents)")
 	}
 	c.gatedShapeRules("C17")
+	// a group that is removed from only one of the two containers is invisible to expiry / FlushAll
+	// (list) or to later flushes (map): it lingers. Same pairing / cleanup rules as C11.
+	c.gatedContainerRules("C17")
 }
 
 var _ = ssa.Instruction(nil)
